@@ -33,6 +33,7 @@ def main():
                     print(os.path.basename(d)[:44], c, 'rc', rc, 'concrete input' if found else ('NO INPUT' if v else 'MISSED'), (detail[:1] or [''])[0][:160])
                     if rc == 0: bad += 1
             finally:
+                sh('git apply -R %s' % os.path.join(d, 'patch.diff'), cwd='/repo')   # also removes files the patch added
                 sh('git checkout -- .', cwd='/repo')
                 for f in glob.glob(os.path.join(ROOT, 'replays', '*.json')):
                     if os.path.getmtime(f) > time.time() - 3600: os.remove(f)
